@@ -145,6 +145,9 @@ def run_one(sid, tier):
     if not conf.get("accepted"):
         return sid, None
     prop = conf["property"]
+    other = os.environ.get("SEEDED_PROP")  # run another property's check against this change
+    if other:
+        prop = other
     wt = worktree("run-%s-%s" % (sid, tier))
     t0 = time.time()
     try:
@@ -163,7 +166,7 @@ def run_one(sid, tier):
            "violation_lines": len(re.findall(r"^VIOLATION property=", o, re.M)),
            "clauses": ["%s|%s" % v for v in viol][:20],
            "tail": o[-1500:]}
-    with open(os.path.join(d, "result-%s.json" % tier), "w") as fh:
+    with open(os.path.join(d, "result-%s%s.json" % (tier, "-" + other if other else "")), "w") as fh:
         json.dump(res, fh, indent=1)
     return sid, res
 
